@@ -55,7 +55,8 @@ def to_solver(gd):
     """Fresh lists/tuples of ints, floats and strings: what a user would type."""
     return {
         "rewards": [_num(r) for r in gd["rewards"]],
-        "players": list(gd["players"]),
+        # fresh string objects (as strings read from JSON / pickles / user input are): equal to the solver's constants, not identical
+        "players": ["".join(list(p)) for p in gd["players"]],
         "transition_list": [[(_num(a), t) for a, t in tr] for tr in gd["transition_list"]],
         "final_states": list(gd["final_states"]),
     }
@@ -581,6 +582,8 @@ def gen_tiny(rng):
     players, tl, rewards = [], [], []
     n = steps + 3
     final, sink = n - 2, n - 1
+    if rng.random() < 0.5:
+        return gen_tiny_players(rng)
     for i in range(steps + 1):
         p = rng.choice([F(1, 10), F(1, 100), F(1, 1000), F(1, 10000)]) if i < steps else F(1)
         nxt = i + 1 if i < steps else final
@@ -618,7 +621,7 @@ def gen_tiny_branch(rng, nmax=9):
         players.append(PR); rewards.append(F(0)); tl.append([(F(1), len(players) - 1)]); sinks = [len(players) - 1]
     z = sinks[0]
     W = oracle.positive_set(g)
-    hosts = [s for s in range(g.n) if s in W and not g.absorbing(s) and players[s] in (PR, P1)]
+    hosts = [s for s in range(g.n) if s in W and not g.absorbing(s) and players[s] in (PR, P1, P2)]
     if not hosts:
         return gd
     for s in rng.sample(hosts, min(len(hosts), rng.randint(1, 2))):
@@ -635,7 +638,8 @@ def gen_tiny_branch(rng, nmax=9):
             # rescaled by THEIR sum; "1 - removed" cancels catastrophically here
             a1 = len(players); players.append(PR); rewards.append(F(rng.randint(100, 2000))); tl.append([(F(1), f)])
             a2 = len(players); players.append(PR); rewards.append(F(rng.randint(1, 50))); tl.append([(F(1), f)])
-            pa, pb = rng.choice([(F(2, 10 ** 13), F(6, 10 ** 13)), (F(1, 10 ** 12), F(3, 10 ** 12)), (F(1, 10 ** 10), F(1, 10 ** 11))])
+            pa, pb = rng.choice([(F(2, 10 ** 13), F(6, 10 ** 13)), (F(1, 10 ** 12), F(3, 10 ** 12)), (F(1, 10 ** 10), F(1, 10 ** 11)),
+                                 (F(1, 10 ** 18), F(3, 10 ** 18)), (F(1, 10 ** 30), F(1, 10 ** 18))])     # last two: the dead mass is 1.0 as a double
             t = len(players)
             tr = [(pa, a1), (pb, a2), (1 - pa - pb, z)]
             rng.shuffle(tr)
@@ -881,8 +885,12 @@ def gen_mix(rng, nmax=10):
     if rng.random() < 0.25:
         labs = sorted({a for s in range(n) if players[s] != PR for a, _ in tl[s]})
         if labs:
-            victim = rng.choice(labs)
-            tl = [[(("" if a == victim else a), t) for a, t in tr] if players[s] != PR else tr for s, tr in enumerate(tl)]
+            if rng.random() < 0.5:
+                # every forced move (player state with a single action) is called "": the empty name lies on forced paths
+                tl = [[("", t) for _, t in tr] if players[s] != PR and len(tr) == 1 else tr for s, tr in enumerate(tl)]
+            else:
+                victim = rng.choice(labs)
+                tl = [[(("" if a == victim else a), t) for a, t in tr] if players[s] != PR else tr for s, tr in enumerate(tl)]
             feats.append("emptylabel")
     # extra non-absorbing finals, order, repetition
     if rng.random() < 0.25:
@@ -936,6 +944,114 @@ def small_game(index):
     finals = [[0], [1], [0, 1], [1, 0]][f]
     return {"rewards": [F(r // 3), F(r % 3)], "players": [o2[a][0], o2[b][0]], "transition_list": [list(o2[a][1]), list(o2[b][1])],
             "final_states": finals}
+
+
+def gen_vslow(rng, variant=None):
+    """A retry state X with a self-loop of probability 0.9999 (or 1 - 2^-14): value iteration legitimately needs 5*10^4 .. 2*10^5
+    sweeps.  'reach': a chooser between X (value 1) and an option worth 0.9 / 0.99; 'reward': Player 2 chooses between X (exact
+    value r/(1-p)) and an option 0.1 % cheaper.  Any cap on the number of sweeps below that shows as a wrong choice / value."""
+    variant = variant or rng.choice(["reach", "reward"])
+    p = rng.choice([F(9999, 10000), 1 - F(1, 2 ** 14)]) if variant == "reward" else F(9999, 10000)
+    r = F(rng.randint(1, 3))
+    # 0 chooser, 1 X, 2 competitor, 3 final, 4 sink
+    x_tr = [(p, 1), (1 - p, 3)]
+    if rng.random() < 0.5:
+        x_tr.reverse()
+    if variant == "reach":
+        q = rng.choice([F(9, 10), F(99, 100), F(999, 1000)])
+        owner = rng.choice([P1, P2])
+        comp_tr, comp_rew = [(q, 3), (1 - q, 4)], F(rng.randint(0, 5))
+    else:
+        owner = P2
+        comp_tr, comp_rew = [(F(1), 3)], (r / (1 - p)) * (1 - F(1, 1000))
+    c0 = [("a", 1), ("b", 2)]
+    if rng.random() < 0.5:
+        c0.reverse()
+    gd = {"rewards": [F(0), r, comp_rew, F(0), F(0)], "players": [owner, PR, PR, PR, PR],
+          "transition_list": [c0, x_tr, comp_tr, [(F(1), 3)], [(F(1), 4)]], "final_states": [3]}
+    return renumber_random(rng, gd)
+
+
+def gen_tiny_players(rng):
+    """Like gen_tiny, with single-action Player-1 / Player-2 states (carrying rewards) between the tiny probabilistic steps, numbered
+    along the flow: when the sweeps stop, a player state may still hold exactly 0 although its successor is already positive."""
+    players, tl, rewards = [], [], []
+    steps = rng.randint(1, 3)
+    seq = []
+    for i in range(steps):
+        if rng.random() < 0.7:
+            seq.append("player")
+        seq.append("tiny")
+    if rng.random() < 0.5:
+        seq.append("player")
+    direct0 = rng.random() < 0.5 and len(seq) >= 2
+    if direct0:
+        seq[0] = "tiny0"       # the initial state also has a tiny DIRECT branch to the final state: it is positive after the first sweep
+    n = len(seq) + 2
+    final, sink = n - 2, n - 1
+    for i, kind in enumerate(seq):
+        nxt = i + 1 if i + 1 < len(seq) else final
+        if kind == "tiny0":
+            p0 = rng.choice([F(1, 10 ** 7), F(3, 10 ** 7), F(1, 10 ** 8)])
+            q = rng.choice([F(1, 2), F(1, 4)])
+            tr = [(p0, final), (q, nxt), (1 - p0 - q, sink)]
+            rng.shuffle(tr)
+            players.append(PR); tl.append(tr); rewards.append(rand_reward(rng, 5))
+        elif kind == "player":
+            players.append(rng.choice([P1, P2])); tl.append([("go", nxt)]); rewards.append(F(rng.randint(1, 9)))
+        else:
+            p = rng.choice([F(1, 10), F(1, 1000), F(1, 10 ** 4), F(1, 10 ** 7)])
+            tr = [(p, nxt), (1 - p, sink)]
+            if rng.random() < 0.5:
+                tr.reverse()
+            players.append(PR); tl.append(tr); rewards.append(rand_reward(rng, 5))
+    players += [PR, PR]
+    tl += [[(F(1), final)], [(F(1), sink)]]
+    rewards += [F(0), F(0)]
+    return {"rewards": rewards, "players": players, "transition_list": tl, "final_states": [final]}
+
+
+def gen_half_cell(rng):
+    """The initial value is a sum of tiny branches that lands within an ulp of 5e-7 (half a rounding cell at 6 digits): the order in
+    which the branches are listed decides on which side the float sum falls."""
+    parts = rng.choice([[F(1, 10 ** 8), F(11, 10 ** 8), F(38, 10 ** 8)], [F(2, 10 ** 8), F(13, 10 ** 8), F(35, 10 ** 8)],
+                        [F(1, 10 ** 7), F(1, 10 ** 7), F(3, 10 ** 7)], [F(15, 10 ** 8), F(35, 10 ** 8)]])
+    parts = list(parts)
+    rng.shuffle(parts)
+    k = len(parts)
+    tr = [(p, 1) for p in parts] + [(1 - sum(parts), 2)]
+    if rng.random() < 0.5:
+        tr = [tr[-1]] + tr[:-1]
+    return {"rewards": [rand_reward(rng, 5), F(0), F(0)], "players": [PR, PR, PR],
+            "transition_list": [tr, [(F(1), 1)], [(F(1), 2)]], "final_states": [1]}
+
+
+def gen_late(rng):
+    """A state that first receives two tiny increments (1e-14 .. 1e-12, through short side branches) and its main contribution only
+    several sweeps later (through a chain numbered against the sweep order)."""
+    e1, e2 = rng.choice([(F(1, 10 ** 13), F(1, 10 ** 13)), (F(3, 10 ** 13), F(1, 10 ** 14)), (F(5, 10 ** 13), F(2, 10 ** 13))])
+    k = rng.randint(3, 8)
+    # 0 = S ; 1..k chain ; k+1 = M ; k+2 final ; k+3 sink
+    final, sink, M = k + 2, k + 3, k + 1
+    main = rng.choice([F(1), F(1, 2), F(3, 4)])
+    players = [PR]
+    tl = [[(e1, final), (e2, M), (1 - e1 - e2, 1)]]
+    rewards = [F(rng.randint(0, 3))]
+    for i in range(1, k + 1):
+        nxt = i + 1 if i < k else final
+        owner = rng.choice([PR, P1, P2])
+        if i == k and main != 1:
+            players.append(PR); tl.append([(main, final), (1 - main, sink)])
+        elif owner == PR:
+            players.append(PR); tl.append([(F(1), nxt)])
+        else:
+            players.append(owner); tl.append([("go", nxt)])
+        rewards.append(F(rng.randint(0, 3)))
+    players += [PR, PR, PR]
+    tl += [[(F(1), final)], [(F(1), final)], [(F(1), sink)]]
+    rewards += [F(0), F(0), F(0)]
+    rng.shuffle(tl[0])
+    return {"rewards": rewards, "players": players, "transition_list": tl, "final_states": [final]}
 
 
 def gen_no_reach(rng):
@@ -1008,6 +1124,14 @@ def gen_class(rng, cls, **kw):
         return gd
     if cls == "G-SMALLX":
         return small_game(rng.randrange(small_game_count()))
+    if cls == "G-VSLOW":
+        return gen_vslow(rng)
+    if cls == "G-VSLOWR":
+        return gen_vslow(rng, "reach")
+    if cls == "G-HALF":
+        return gen_half_cell(rng)
+    if cls == "G-LATE":
+        return gen_late(rng)
     if cls == "G-NOREACH":
         return gen_no_reach(rng)
     if cls == "G-TINYB":
